@@ -1335,6 +1335,8 @@ func verifCandidateScenarios() []*verifLayer {
 			vFile("a", "aaaa", nil), vOne(vE("b/", "dir")),
 		), nil, st, "toc-digest-span-zstd"))
 	}
+	// a TOC without any entry: the memory store's fallback root has NumLink 1, the db root 2
+	ls = append(ls, verifScenario("cand-empty-toc", "cand", "gzip", nil, nil, verifStd, "empty-toc-root-nlink"))
 	// repeated directory entry with different attributes (tar: the later header wins)
 	ls = append(ls, verifScenario("cand-repeated-dir-attrs", "cand", "gzip", vCat(
 		vOne(vE("d/", "dir", vMode(0700), vOwner(5, 6), vMtime("2020-01-02T03:04:05Z"), vX("user.a", "1", "user.b", "2"))),
@@ -1423,7 +1425,6 @@ func verifNonConformingScenarios() []*verifLayer {
 	ls = append(ls, mk("root-is-file", vCat(vFile("./", "x", nil), vFile("f", "y", nil))))
 	ls = append(ls, mk("root-is-symlink", vCat(vOne(vE("/", "symlink", vLink("x"))), vFile("f", "y", nil))))
 	ls = append(ls, mk("root-is-hardlink", vCat(vFile("f", "y", nil), vOne(vE("/", "hardlink", vLink("f"))))))
-	ls = append(ls, mk("empty-toc", nil))
 	ls = append(ls, mk("only-root", vOne(vE("./", "dir"))))
 	{
 		ents := vFile("f", "0123456789", []int{5})
